@@ -94,7 +94,7 @@ func (g *gen) special() string {
 	case 2:
 		return fmt.Sprintf("@%dN", g.r.Intn(n))
 	}
-	return "atele"
+	return "@evm"
 }
 
 // a denomination to look up / convert / toggle
@@ -309,9 +309,12 @@ func genSpec(r *hlib.Rand, id, steps int) Spec {
 			g.add(Op{K: "convcoin", A: g.denom()})
 		case x < 92:
 			g.add(Op{K: "converc20", A: g.regRef(), B: g.denom()})
-		case x < 95:
+		case x < 94:
 			g.disabled = !g.disabled
 			g.add(Op{K: "enable", On: !g.disabled})
+		case x < 95:
+			// the aggregate proposals that do not concern the registry
+			g.add(Op{K: []string{"trace", "limiton", "limitoff"}[r.Intn(3)], A: g.regRef(), Decimals: r.Intn(20)})
 		case x < 98:
 			if len(g.ops) > n/2 && len(g.reg) > 0 {
 				g.add(Op{K: "destroy", A: g.regRef()})
@@ -333,7 +336,7 @@ func genSpec(r *hlib.Rand, id, steps int) Spec {
 func targeted() []Spec {
 	coin := func(k string) Op { return Op{K: "deploy", Name: "coin", Symbol: "CN", Decimals: 18} }
 	sup := func(d string) Op { return Op{K: "supply", A: d} }
-	return []Spec{
+	return append(directed(), []Spec{
 		// D6: update of a multi-denomination pair
 		{ID: -1, Ops: []Op{coin(""), coin(""), {K: "regerc20", A: "@0"}, sup("dcoin"), {K: "addcoin", A: "@0", MD: simpleMD("dcoin", "dcoin")},
 			{K: "update", A: "@0", B: "@1"}, {K: "convcoin", A: "dcoin"}, {K: "toggle", A: "dcoin"}}},
@@ -375,5 +378,58 @@ func targeted() []Spec {
 		// the masked Name test and the pointer comparison (same base twice: identical metadata, other name)
 		{ID: -14, Ops: []Op{sup("dcoin"), sup("ecoin"), {K: "regcoin", MD: simpleMD("dcoin", "dcoin")}, {K: "regcoin", MD: simpleMD("dcoin", "dcoin")}, {K: "regcoin", MD: simpleMD("dcoin", "Other name")},
 			{K: "regcoin", MD: simpleMD("ecoin", "dcoin")}, {K: "regcoin", MD: simpleMD("ecoin", "ecoin")}, {K: "enable", On: false}, {K: "toggle", A: "dcoin"}, {K: "convcoin", A: "dcoin"}, {K: "enable", On: true}}},
+	}...)
+}
+
+// directed sequences for code paths that the witnesses above do not walk (they run first on every run, for every seed)
+func directed() []Spec {
+	coin := func() Op { return Op{K: "deploy", Name: "coin", Symbol: "CN", Decimals: 18} }
+	sup := func(d string) Op { return Op{K: "supply", A: d} }
+	ibcd := "ibc/27394FB092D2ECCD56123C74F36E4C1F926001CEADA9CA97EA622B25F41E5EB2"
+	return []Spec{
+		// metadata whose Name differs from its Base: the registry is keyed by the Base everywhere (RegisterCoin, AddCoin on an
+		// external and on a module-owned pair), every denomination stays convertible, the contract resolves in every spelling
+		{ID: -17, Ops: []Op{coin(), {K: "regerc20", A: "@0"}, sup("dcoin"), {K: "addcoin", A: "@0", MD: simpleMD("dcoin", "Coin dcoin")},
+			sup("ecoin"), {K: "regcoin", MD: simpleMD("ecoin", "Coin ecoin")}, sup("fcoin"), {K: "addcoin", A: "@1n", MD: simpleMD("fcoin", "ecoin")},
+			{K: "convcoin", A: "dcoin"}, {K: "converc20", A: "@1u", B: "fcoin"}, {K: "toggle", A: "@1N"}, {K: "toggle", A: "fcoin"}}},
+		// genesis files that TokenPair.Validate must refuse: invalid denomination, text that is no hex address
+		{ID: -18, Ops: []Op{{K: "genesis", Pairs: []GPair{{Text: "@0", Denoms: []string{"acoin", "1bad"}, Enabled: true, Owner: 1}}},
+			{K: "genesis", Pairs: []GPair{{Text: "@0", Denoms: []string{"acoin"}, Enabled: true, Owner: 1}, {Text: "@1", Denoms: []string{"bcoin", "1bad"}, Enabled: false, Owner: 2}}},
+			{K: "genesis", Pairs: []GPair{{Text: "@0", Denoms: []string{"acoin"}, Enabled: false, Owner: 1}, {Text: "@1", Denoms: []string{"@1n"}, Enabled: false, Owner: 2}}}}},
+		{ID: -19, Ops: []Op{{K: "genesis", Pairs: []GPair{{Text: "@0", Denoms: []string{"acoin"}, Enabled: true, Owner: 1}, {Text: "0xnothex", Denoms: []string{"bcoin"}, Enabled: true, Owner: 2}}}}},
+		// after X -> Y: Y counts as registered (RegisterERC20 Y and an update of another pair to Y are refused), X is free
+		// in the address index (its old denomination keeps its metadata, so RegisterERC20 X is refused for THAT reason);
+		// moving back Y -> X works and the pair keeps all its denominations
+		{ID: -20, Ops: []Op{coin(), coin(), coin(), {K: "regerc20", A: "@0"}, {K: "regerc20", A: "@2"}, sup("dcoin"), {K: "addcoin", A: "@0l", MD: simpleMD("dcoin", "dcoin")},
+			{K: "update", A: "@0", B: "@1"}, {K: "regerc20", A: "@1"}, {K: "regerc20", A: "@0"}, {K: "update", A: "@2", B: "@1l"}, {K: "update", A: "@1u", B: "@0n"},
+			{K: "convcoin", A: "dcoin"}, {K: "converc20", A: "@0", B: "@den0"}, {K: "converc20", A: "@1", B: "dcoin"}}},
+		// the three aggregate proposals that must not touch the registry, on registered / unregistered / malformed addresses
+		{ID: -21, Ops: []Op{coin(), {K: "regerc20", A: "@0"}, {K: "trace", A: "@0", Decimals: 6}, {K: "limiton", A: "@0"}, {K: "limitoff", A: "@0"},
+			{K: "trace", A: "@1", Decimals: 19}, {K: "limitoff", A: "nothex"}, {K: "convcoin", A: "@den0"}}},
+		// a module-owned pair grows to four denominations, is disabled, moved, enabled again; clean-up removes all six entries
+		{ID: -22, Ops: []Op{sup("acoin"), {K: "regcoin", MD: updatableMD("acoin", "acoin")}, sup("bcoin"), {K: "addcoin", A: "@0", MD: simpleMD("bcoin", "bcoin")},
+			sup("ccoin"), {K: "addcoin", A: "@0", MD: simpleMD("ccoin", "ccoin")}, sup(ibcd),
+			{K: "addcoin", A: "@0", MD: &MD{Base: ibcd, Name: "channel-0 atom", Symbol: "ibcATOM", Display: ibcd, Desc: "voucher", Units: []Unit{unit(ibcd, 0)}}},
+			{K: "toggle", A: "ccoin"}, {K: "convcoin", A: "bcoin"}, {K: "converc20", A: "@0", B: "acoin"}, coin(), {K: "update", A: "@0", B: "@1"},
+			{K: "convcoin", A: "ccoin"}, {K: "toggle", A: "@1"}, {K: "convcoin", A: ibcd},
+			{K: "destroy", A: "@1"}, {K: "converc20", A: "@1", B: "bcoin"}}},
+		// every refusal of UpdateTokenPairERC20's comparison of the stored metadata with the new contract (symbol, unit
+		// exponent, description), the EVM denomination as base, and ValidateBasic refusals of malformed addresses / tokens
+		{ID: -23, Ops: []Op{coin(), {K: "regerc20", A: "@0"}, {K: "deploy", Name: "coin", Symbol: "XX", Decimals: 18}, {K: "update", A: "@0", B: "@1"},
+			{K: "deploy", Name: "coin", Symbol: "CN", Decimals: 6}, {K: "update", A: "@0", B: "@2"},
+			sup("gcoin"), {K: "regcoin", MD: &MD{Base: "gcoin", Name: "gcoin", Symbol: "CN", Display: "coin", Desc: "wrong description", Units: []Unit{unit("gcoin", 0), unit("coin", 18)}}},
+			coin(), {K: "update", A: "@3", B: "@4"},
+			sup("@evm"), {K: "regcoin", MD: simpleMD("@evm", "@evm")}, {K: "addcoin", A: "@0", MD: simpleMD("@evm", "@evm")},
+			{K: "regerc20", A: "nothex"}, {K: "toggle", A: "1x"}, {K: "update", A: "nothex", B: "@0"}, {K: "update", A: "@0", B: "zz"}, {K: "converc20", A: "nothex", B: "gcoin"},
+			{K: "convcoin", A: "gcoin"}}},
+		// a genesis pair that lists the voucher denomination of a contract it does not own, without bank metadata:
+		// RegisterERC20 of that contract is refused by the denomination index (not by the metadata test)
+		{ID: -24, Ops: []Op{coin(), {K: "genesis", Pairs: []GPair{{Text: "@1", Denoms: []string{"@den0", "acoin"}, Enabled: true, Owner: 2},
+			{Text: "@2l", Denoms: []string{"bcoin", "ccoin"}, Enabled: false, Owner: 1}}}, {K: "regerc20", A: "@0"},
+			{K: "convcoin", A: "@den0"}, {K: "toggle", A: "@0"}, {K: "toggle", A: "@1"}, {K: "convcoin", A: "ccoin"}, {K: "toggle", A: "ccoin"}, {K: "convcoin", A: "ccoin"}}},
+		// genesis files with DISABLED pairs are validated and imported like any other: a disabled pair may not share its
+		// contract (in another spelling) or a denomination with another pair
+		{ID: -25, Ops: []Op{{K: "genesis", Pairs: []GPair{{Text: "@0", Denoms: []string{"acoin"}, Enabled: true, Owner: 1}, {Text: "@0u", Denoms: []string{"bcoin"}, Enabled: false, Owner: 2}}}}},
+		{ID: -26, Ops: []Op{{K: "genesis", Pairs: []GPair{{Text: "@0", Denoms: []string{"acoin", "bcoin"}, Enabled: false, Owner: 1}, {Text: "@1", Denoms: []string{"ccoin", "bcoin"}, Enabled: false, Owner: 2}}}}},
 	}
 }
